@@ -18,6 +18,7 @@ import Driver.C18
 import Driver.Sched
 import Driver.C09
 import Driver.C20
+import Driver.C20Serve
 import Driver.C08
 import Driver.Dialer
 import Driver.C10
@@ -25,6 +26,7 @@ import Driver.C10Q
 import Driver.C04
 import Driver.C17
 import Driver.OSGlue
+import Driver.Sysctl
 
 open Corerad
 
@@ -44,8 +46,8 @@ def handlers : List (String × (List String → List String → Option Verdict))
   ("lst", Driver.C09.lst),
   ("bt", Driver.C20.bt), ("sv", Driver.C20.sv),
   ("shut", Driver.C08.shut),
-  ("d10", Driver.Dialer.d10), ("d11", Driver.Dialer.d11), ("rd", Driver.Dialer.rd),
-  ("grp", Driver.C10.grp), ("grpq", Driver.C10Q.grpq),
+  ("d10", Driver.Dialer.d10), ("d11", Driver.Dialer.d11), ("rd", Driver.Dialer.rd), ("rdm", Driver.Dialer.rdm), ("sc", Driver.Sysctl.sc),
+  ("srv", Driver.C20Serve.srv), ("http", Driver.C20Serve.http), ("grp", Driver.C10.grp), ("grpq", Driver.C10Q.grpq),
   ("pth", Driver.C04.pth),
   ("scr", Driver.C17.scr), ("api", Driver.C17.api), ("rt", Driver.C17.rt),
   ("pr", Driver.OSGlue.pr), ("osc", Driver.OSGlue.osc),
